@@ -240,7 +240,7 @@ def run(chk):
                 continue
             t0, t1 = pegdump.coq_table(run_["plain"]["table"]), pegdump.coq_table(run_["kw"]["table"])
             s = pegdump.coq_str(text)
-            parts.append("show_bool (kw_tables_ok W D L %s %s %s g k) ++ show_bool (no_glue_ok W D L %s g) ++ \"|\" ++ "
+            parts.append("show_bool (kw_case_ok W D L %s %s %s g k) ++ show_bool (no_glue_ok W D L %s g) ++ \"|\" ++ "
                          "show_outcome g (run g c (orc_of %s) false %d %s) ++ \"|\" ++ show_outcome k (run k c (orc_of %s) false %d %s)" % (
                              s, t0, t1, s, t0, K.FUEL, s, t1, K.FUEL, s))
             keys.append((ci, "run", ii, None))
@@ -303,7 +303,7 @@ def run(chk):
             tables_ok, no_glue = flags[0] == "T", flags[1] == "T"
             if not tables_ok:
                 # the keyword regex of the real parser does not answer like kw_match (or the tables are not related)
-                disagreements.append({"case": cinfo, "impl": {"plain": p["table"], "kw": k["table"]}, "model": "kw_tables_ok = F (hypothesis of C21_same_model about the terminals)"})
+                disagreements.append({"case": cinfo, "impl": {"plain": p["table"], "kw": k["table"]}, "model": "kw_case_ok = F (hypothesis of C21_same_model about the terminals)"})
             nontrivial = k["tree"].startswith("P:") or p["tree"].startswith("P:") or not no_glue
             chk.count(json.dumps([case["grammar"], case["opts"], text]), nontrivial=nontrivial)
             # ---- property (1): a keyword match is never followed by a word character
@@ -343,7 +343,7 @@ def run(chk):
                        "both dumped parser models; non-trivial = accepted by either parser or containing a glued keyword; distinct by (grammar, options, input)")
     chk.assumptions += ["tools/pegdump.py dumps the live Arpeggio parser models faithfully (fail closed on unknown node types)",
                         "\\w / \\d classification and lower-casing of non-ASCII characters are taken from Python (re, str.lower) per case; ASCII is modelled in Coq",
-                        "the keyword regex `<literal>\\b` of the real parser answers like kw_match: checked at every position of every generated input (kw_tables_ok) and "
+                        "the keyword regex `<literal>\\b` of the real parser answers like kw_match: checked at every position of every generated input (kw_case_ok) and "
                         "exhaustively on small texts; regex terminals other than the keyword regex are oracles",
                         "Arpeggio (RegExMatch/StrMatch._parse, the interpreter) is modelled, validated by this correspondence, not verified",
                         "model equality at textX level is compared on the implementation, not derived in Coq"]
